@@ -1,17 +1,26 @@
-import AndaVerif.Drv.ObjStoreProto
+import AndaVerif.Drv.ObjStoreConcProto
 /-
-Driver of the C07 model (wrapper model and reference model side by side); protocol in
-`Drv/ObjStoreProto.lean`.
+Driver of the C07 model (wrapper model and reference model side by side; replay of reader ∥ writer
+interleavings on the concurrent model); protocol in `Drv/ObjStoreProto.lean` and
+`Drv/ObjStoreConcProto.lean`.
 -/
-open AndaVerif.Drv AndaVerif.ObjStoreProto
+open AndaVerif.Drv AndaVerif.ObjStoreProto AndaVerif.ObjStoreConcProto
 
 namespace AndaVerif.DrvC07
 
-def step (st : St) (line : String) : St × String :=
-  match stepC07 st (words line) with
-  | some r => r
-  | none => (st, "bad-op")
+structure DSt where
+  st : St := {}
+  conc : Option ConcSt := none
+
+def step (d : DSt) (line : String) : DSt × String :=
+  let ws := words line
+  match stepConc d.st d.conc ws with
+  | some (st, conc, out) => ({ st := st, conc := conc }, out)
+  | none =>
+      match stepC07 d.st ws with
+      | some (st, out) => ({ st := st, conc := if ws.head? = some "reset" then none else d.conc }, out)
+      | none => (d, "bad-op")
 
 end AndaVerif.DrvC07
 
-def main : IO Unit := lineLoop ({} : AndaVerif.ObjStoreProto.St) AndaVerif.DrvC07.step
+def main : IO Unit := lineLoop ({} : AndaVerif.DrvC07.DSt) AndaVerif.DrvC07.step
